@@ -54,7 +54,7 @@ def call_patterns(k, nparams, tier):
     """lists of items for the main program given the subroutine arity k"""
     a = list(range(20, 20 + k))
     b = list(range(30, 30 + k))[::-1]
-    c = [5, 4, 7][:k]
+    c = [5, 4, 7, 6][:k]
     G = lambda m: ("stmt", "G", [N("1")], [], [N(m)], "none")
     pats = [
         [call("Sub", nparams, a)],
@@ -253,9 +253,11 @@ def _case(c):
 
 def build(ctx, base):
     cases = []
-    for k in (1, 2, 3):
+    for k in ((1, 2, 3) if ctx.quick else (1, 2, 3, 4)):
         for subset in itertools.combinations(UNIVERSE, k):
             for order in itertools.permutations(subset):
+                if k == 4 and order[0] != min(order) and order[-1] != min(order):
+                    continue        # 4 modes: orders that start or end with the smallest mode (720 of 1680 orders)
                 for nparams in (0, 1, 2):
                     npat = len(call_patterns(k, nparams, ctx.tier))
                     for pi in range(npat):
